@@ -43,6 +43,17 @@ pub fn csr_space(conformant_only: bool) -> Space<CsrCase> {
         }
         dims.push(nd);
     }
+    // fields a request does not carry and does not refuse (key identifier method, validity): setting them changes nothing
+    for d in cert_space(conformant_only, true).dims {
+        if !matches!(d.name, "key_id" | "not_before" | "not_after") {
+            continue;
+        }
+        let mut nd: Dim<CsrCase> = Dim::new(d.name);
+        for (l, f) in d.values.into_iter().skip(1) {
+            nd = nd.v(l, move |c: &mut CsrCase| f(&mut c.st));
+        }
+        dims.push(nd);
+    }
     // attribute lists: all sequences of <= 2 over the 5 atoms (31 values); <= 3 handled by a sweep
     let mut atoms = attr_atoms();
     if conformant_only {
